@@ -327,7 +327,13 @@ fn generator_suite(ctx: &mut Ctx, rng: &mut Rng) {
                             got_b.extend(it.next_back());
                         }
                         let h = it.size_hint();
-                        let rest: Vec<f64> = it.take(1_000).collect();
+                        let rest: Vec<f64> = it.by_ref().take(1_000).collect();
+                        // an exhausted generator stays exhausted from both ends and announces nothing
+                        let after = catch(|| (it.next_back().is_none(), it.next().is_none(), it.size_hint().1));
+                        if after != Ok((true, true, Some(0))) {
+                            ctx.violation(&format!("{name}/exhausted"), || format!("{name} a={a} b={b} st={st} n={n}: after exhaustion (next_back is None, next is None, hint) = {after:?}"));
+                            return;
+                        }
                         got_b.reverse();
                         let seq: Vec<f64> = got_f.into_iter().chain(rest.iter().copied()).chain(got_b).collect();
                         if h.1 != Some(rest.len()) || rest.len() != total - front - back || bits(&seq) != bits(&all) {
